@@ -18,11 +18,15 @@ if [ "$NOSUITE" != "--no-suite" ]; then
 fi
 fired=""; prc=none
 : > /tmp/seed_check_$$.log
+mkdir -p /tmp/seed_par_$$
+# all checks, eight at a time
+(cd /verif/sa/rules && ls C??.py | sed 's/.py//') | xargs -P 8 -I{} sh -c 'cd /verif && SWEETPEA_REPO="'"$W"'" VERIF_EVIDENCE_DIR=/tmp/seed_ev_'"$$"' ./check {} quick > /tmp/seed_par_'"$$"'/{}.out 2>/dev/null; echo $? > /tmp/seed_par_'"$$"'/{}.rc'
 for c in $(cd /verif/sa/rules && ls C??.py | sed 's/.py//'); do
-  out=$(cd /verif && SWEETPEA_REPO="$W" VERIF_EVIDENCE_DIR=/tmp/seed_ev_$$ ./check $c quick 2>/dev/null); rc=$?
-  if [ $rc -ne 0 ]; then fired="$fired $c:$rc"; echo "$out" | grep -v "^note:" | head -8 >> /tmp/seed_check_$$.log; fi
+  rc=$(cat /tmp/seed_par_$$/$c.rc 2>/dev/null || echo 3)
+  if [ "$rc" -ne 0 ]; then fired="$fired $c:$rc"; grep -v "^note:" /tmp/seed_par_$$/$c.out | head -8 >> /tmp/seed_check_$$.log; fi
   if [ "$c" = "$P" ]; then prc=$rc; fi
 done
+rm -rf /tmp/seed_par_$$
 echo "RESULT $D demo_clean=$c0 demo_mutated=$c1 suite=[$suite] check_$P=$prc fired=[$fired]"
 sed 's/^/    | /' /tmp/seed_check_$$.log | cut -c1-420
 /venv/bin/python - "$D" "$P" "$c0" "$c1" "$suite" "$prc" "$fired" "$(git -C /repo rev-parse --short HEAD)" "$(git -C /verif rev-parse --short HEAD)" <<'PY'
